@@ -103,9 +103,11 @@ class Runner:
         self.ev = []
         self.shape = None
         self.dir = tempfile.mkdtemp(prefix="evo-")
-        self.shared_hp = zoo.hp_config(algo) if shared_hp is True else None
+        self.shared_hp = (zoo.hp_config(algo) if shared_hp is True else
+                          zoo.hp_config(algo, only_lr=True) if shared_hp == "lr-shared" else None)       # one object for the whole population
         self.hp_mode = shared_hp
         self.mutations = {}
+        self.filemap = {}
         self.wrapped = wrapped
 
     def close(self):
@@ -141,6 +143,9 @@ class Runner:
             else:
                 v, sn = self.view(ag)
                 post.append(v)
+                if self.shared_hp is not None:
+                    # the members of an initial population are built from one configuration object: that object is shared by design
+                    sn["ptrs"] = {p_ for p_ in sn["ptrs"] if not (p_[0] == "hp_config" or str(p_[0]).startswith("rlparam:"))}
                 ptrsets[s] = sn["ptrs"]
                 cells.append(sorted(self.ids("cell", list(p)) for p in sn["ptrs"]))
                 raw[s] = sn
@@ -217,13 +222,22 @@ class Runner:
             e["h"] = hpn.index(m) + 1 if m in hpn else 0
             e["can_act"] = can_act(out[0], algo)
         elif op[0] == "mutpop":
-            _, kind = op
+            kind = op[1]
+            noelite = len(op) > 2 and op[2] == "noelite"          # Mutations(mutate_elite=False): the first member draws no mutation
             e.update({"k": kind, "a": 0})
             live = [s for s in range(1, self.nslots + 1) if self.slots[s] is not None]
             pop = [self.slots[s] for s in live]
             idxs = [p.index for p in pop]
             zoo.seed_all(self.seed * 31 + len(self.ev))
-            out = self.mutations_for(kind).mutation(pop)
+            if noelite:
+                from agilerl.hpo.mutation import Mutations
+                key = (kind, "noelite")
+                if key not in self.mutations:
+                    self.mutations[key] = Mutations(mutation_sd=0.1, mutate_elite=False, rand_seed=self.seed + 13, **KIND_ARGS[kind])
+                out = self.mutations[key].mutation(pop)
+                e["ks"] = ["none" if s == live[0] else ("arch" if kind == "archl" else kind) for s in range(1, self.nslots + 1)]
+            else:
+                out = self.mutations_for(kind).mutation(pop)
             e["order_ok"] = len(out) == len(pop) and [p.index for p in out] == idxs
             hpn = self.shape["hpnames"]
             hs = [0] * self.nslots
@@ -252,16 +266,27 @@ class Runner:
             _, a, f = op
             e.update({"a": a, "f": f})
             self.slots[a].save_checkpoint(os.path.join(self.dir, f"f{f}.pt"))
+            self.filemap.pop(f, None)
+        elif op[0] == "savepop":
+            # the population helper of the training loops (agilerl.utils.utils.save_population_checkpoint): the file of member i is
+            # <path>_<i>.pt (overwrite_checkpoints) or <path>_<i>_<steps>.pt; recorded as a plain save of agent a to file f
+            _, a, f, overwrite = op
+            e.update({"op": "save", "a": a, "f": f})
+            from agilerl.utils.utils import save_population_checkpoint
+            ag = self.slots[a]
+            base = os.path.join(self.dir, f"pop{f}")
+            save_population_checkpoint([ag], base, bool(overwrite))
+            self.filemap[f] = f"{base}_0.pt" if overwrite else f"{base}_0_{ag.steps[-1]}.pt"
         elif op[0] == "loadnew":
             _, f, c = op
             e.update({"f": f, "c": c, "a": c})
             first = self.slots[[s for s in range(1, self.nslots + 1) if self.slots[s] is not None][0]]
             cls = type(getattr(first, "agent", first)) if self.wrapped else type(first)
-            self.slots[c] = cls.load(os.path.join(self.dir, f"f{f}.pt"))
+            self.slots[c] = cls.load(self.filemap.get(f, os.path.join(self.dir, f"f{f}.pt")))
         elif op[0] == "loadinto":
             _, f, a = op
             e.update({"f": f, "a": a})
-            self.slots[a].load_checkpoint(os.path.join(self.dir, f"f{f}.pt"))
+            self.slots[a].load_checkpoint(self.filemap.get(f, os.path.join(self.dir, f"f{f}.pt")))
         elif op[0] == "discard":
             _, a = op
             e["a"] = a
